@@ -74,8 +74,11 @@ IMPORTS = {
     "C09": [("C03", {"vr-header-form", "header-layout", "header-bytes-read"}, "the meta group is written and read with the Explicit VR Little Endian codec", 85,
              lambda i: "explicit_le" in i["fn"])],
     "C25": [("C29", {"pdu-roles"}, "`a PDU longer than the maximum is rejected` is decided by the maximum the associations hand to read_pdu / encode_pdu", 20, None)],
-    "C26": [("C25", {"pdu-tables", "item-framing", "chunk-length"}, "P-DATA PDUs and their PDV items are framed as the reader parses them", 117, None)],
-    "C28": [("C25", {"pdu-tables", "item-framing"}, "the association PDUs the acceptor reads and writes are coded as the peer codes them", 114, None)],
+    "C26": [("C25", {"pdu-tables", "item-framing", "chunk-length"}, "P-DATA PDUs and their PDV items are framed as the reader parses them", 117, None),
+            ("C28", {"max-pdu"}, "the P-DATA writer of an acceptor is sized with the requestor's maximum as recorded at negotiation", 2, None),
+            ("C29", {"pdu-roles", "response-processing"}, "the P-DATA writer is sized with the peer's maximum as stored in the association", 40, None)],
+    "C28": [("C25", {"pdu-tables", "item-framing"}, "the association PDUs the acceptor reads and writes are coded as the peer codes them", 114, None),
+            ("C29", {"pdu-roles"}, "the requestor's maximum recorded by the acceptor is the one stored in the established association", 20, None)],
     "C29": [("C25", {"pdu-tables", "item-framing"}, "both peers code the association PDUs alike", 114, None)],
     "C30": [("C25", {"pdu-tables"}, "release / abort PDUs are coded as the peer decodes them", 91, None),
             ("C29", {"pdu-roles"}, "release and abort go out through send(), limited by the peer's maximum as negotiated", 20, None)],
@@ -87,6 +90,26 @@ IMPORTS = {
 def apply_imports(chk, tier, pid):
     for src, rules, why, counted, only in IMPORTS.get(pid, []):
         import_rules(chk, tier, src, rules, why, (counted * 9) // 10, only=only)
+
+
+def pdata_reader_error_kinds(chk, fx, rule):
+    """PDataReader (sync read, async poll_read): no error it raises has kind UnexpectedEof. The data set readers take an UnexpectedEof met at
+    an element boundary for the regular end of a data set, so a lost connection or an A-ABORT in the middle of a data set that is
+    decoded straight from the reader would come back as Ok(partial object) (C34: failures are reported; C30: abort during data)"""
+    chk.rule(rule, "PDataReader::read / poll_read: every io::Error they construct has a kind other than UnexpectedEof (Other / InvalidData ...): the data set readers "
+                   "treat UnexpectedEof between two elements as the end of the data")
+    d = fx.crate("dicom_ul")
+    n = 0
+    for hh in d["hir"]:
+        if not re.search(r"pdata::(non_blocking::)?PDataReader<.*>::(read|poll_read)$", hh["path"]):
+            continue
+        ctor = [x for c_, x in H.calls(hh["body"]) if c_ and re.search(r"io::error::Error::(new|other|from)$|io::Error::(new|other)$", c_)]
+        kinds = [(H.show(H.call_args(x)[0], 4) if (H.callee(x) or "").endswith("::new") else "Other") for x in ctor]
+        n += len(ctor)
+        bad = [k for k in kinds if "UnexpectedEof" in k]
+        chk.expect(len(ctor) >= 2 and not bad, rule, hh["path"].split("::")[-1] + ("(async)" if "non_blocking" in hh["path"] else "(sync)"), "error-kinds", "no UnexpectedEof among the constructed errors", kinds,
+                   loc=C.fn_loc(hh))
+    chk.floor(rule, "errors constructed by the two readers", n, 4)
 
 
 def collector_preamble(chk, fx, rule):
